@@ -11,6 +11,9 @@ P = {
  'C10': ("Coq theorems: on the specification machines a non-successful step leaves both views and all later behaviour unchanged; refutation on M_py (forward). Tie: for every failing operation of the corpus the implementation is compared with itself with and without the failed call (views + sampled continuations); M_py decides which differences are recorded findings.", "Coq proof on the specification machines + twin-replay correspondence"),
  'C11': ("Coq theorem: on the sequence machine a removal deletes exactly that child from both views keeping the relative order; the fresh-element equivalence is refuted (sticky activation) on the machine and on M_py. Tie: after every successful removal the implementation is compared with a fresh twin fed the remaining children.", "Coq proof (partial) + refutation witnesses + twin-replay correspondence"),
  'C19': ("Coq theorems: outcomes of the specification machines are documented rejections characterised exactly; no print( / sys.stdout site exists in any library module (table regenerated from the ast); refutations on M_py for the internal errors. Tie: every operation of the corpus classified, stdout/stderr captured; constructor/to_string sweep over all 441 classes.", "Coq proof on machines + regenerated site table + correspondence"),
+ 'C07': ("Verified judges (Coq): a state is reported dead only when Parikh.dead proves that no word of the content model dominates the children (dead_sound), alive only with a checked witness (witness_sound); every state reached by a successful add/forward/replace of the corpus is judged; refutations on M_py.", "Coq-verified judges (maxcount/excl soundness) + correspondence"),
+ 'C12': ("Verified witness judge (Coq, witness_sound) decides 'still compatible'; (a) all permutations of multisets with a unique valid arrangement (arrangement confirmed by the verified matcher), (b) every rejected add of the corpus; refutations on M_py.", "Coq-verified judge + exhaustive permutations + correspondence"),
+ 'C18': ("Coq theorems on the unchecked list machine (never a structural rejection, insertion order) and on the gating of final checks over trees of checked/unchecked nodes (final_checks passes iff every checked node is complete). Tie: unchecked histories with arbitrary children on all 441 classes vs. the extracted machine, checked/unchecked byte twins for every valid word, random mixed trees vs. the gating model.", "Coq proof (list machine + tree induction) + correspondence"),
 }
 m = json.load(open(os.path.join(V, 'MANIFEST.json')))
 checks = []
